@@ -730,6 +730,51 @@ ARRAY_KINDS = ["Multiply", "MatMul", "RightMatMul", "ConvolveData", "ConvolveFil
                "ConvSense", "ConvImage", "PtxSpatialExplicit"]
 
 
+def gen_nested_stack(rng):
+    """A stack inside a stack (Hstack / Vstack / Diag), every axis combination that fits -
+    in particular an inner stack along one axis inside an outer flattening one - optionally
+    wrapped in .H (the adjoint of a nested Vstack is a nested Hstack and vice versa)."""
+    nd = int(rng.integers(1, 4))
+    s = [int(rng.integers(2, 4)) for _ in range(nd)]
+    A, B, C = (gen_endo(rng, s, 4) for _ in range(3))
+    kind = pick(rng, ["Vstack", "Hstack", "Diag"])
+    ia = pick(rng, [None] + list(range(-nd, nd)))
+    oa = pick(rng, [None, None, ia])
+
+    def cat(shapes, ax):
+        if ax is None:
+            return [sum(_prod(t) for t in shapes)]
+        t = list(shapes[0])
+        t[ax] = sum(u[ax] for u in shapes)
+        return t
+
+    def stack(parts, ax):
+        ish = [p["ishape"] for p in parts]
+        osh = [p["oshape"] for p in parts]
+        if kind == "Vstack":
+            return {"op": "Vstack", "parts": parts, "axis": ax, "ishape": list(ish[0]),
+                    "oshape": cat(osh, ax)}
+        if kind == "Hstack":
+            return {"op": "Hstack", "parts": parts, "axis": ax, "ishape": cat(ish, ax),
+                    "oshape": list(osh[0])}
+        return {"op": "Diag", "parts": parts, "iaxis": ax, "oaxis": ax, "ishape": cat(ish, ax),
+                "oshape": cat(osh, ax)}
+    inner = stack([A, B], ia)
+    order = [inner, C] if rng.random() < 0.5 else [C, inner]
+    if oa is not None and oa != ia:
+        oa = None
+    if oa is not None and ia is None:
+        oa = None
+    if oa is None and kind == "Vstack":
+        pass                                    # parts share the input shape s: always fits
+    d = stack(order, oa)
+    if kind == "Hstack" and oa is None:
+        pass                                    # parts share the output shape s
+    if rng.random() < 0.5:
+        d = {"op": "H", "A": d, "ishape": d["oshape"], "oshape": d["ishape"]}
+    return d
+
+
 def gen_struct_leaf(rng, kind, maxn=6):
     """A leaf of an array-capturing kind whose parameter arrays are *structured* (see _arr:
     unit modulus, +-1 / +-i, all ones, constant, one-hot), by moving its seed into the
